@@ -473,8 +473,9 @@ def evaluate__datetime_type_and_function(self: XPathConstructor, context: ta.Con
 @constructor('untypedAtomic')
 def cast__untyped_atomic(self: XPathConstructor, value: ta.AtomicType) -> UntypedAtomic:
     if isinstance(value, (bool, float, decimal.Decimal)):
-        return UntypedAtomic(self.string_value(value))  # the canonical string of the value
-    return UntypedAtomic(value)
+        # Use the canonical string of the value
+        return UntypedAtomic(self.string_value(value), self.parser)
+    return UntypedAtomic(value, self.parser)
 
 
 @method('untypedAtomic')
